@@ -60,6 +60,7 @@ def read_r1cs(b):
     if [s[0] for s in secs] != [1, 2, 3]: raise FormatError(f"sections {[s[0] for s in secs]}")
     h = secs[0][1]
     n8, o = u32(h, 0)
+    if n8 % 8 != 0 or n8 == 0: raise FormatError("field size")
     prime, o = fe(h, o, n8)
     nwires, o = u32(h, o); npubout, o = u32(h, o); npubin, o = u32(h, o); nprvin, o = u32(h, o)
     nlabels, o = u64(h, o); ncons, o = u32(h, o)
@@ -90,7 +91,11 @@ def check(wt, r1, p, pubs, privs, cons):
     bad = []
     n = len(pubs) + len(privs) + 1
     if wt["prime"] != p or r1["prime"] != p: bad.append(("header", "prime in file differs from the backend's modulus"))
-    if wt["n8"] != 32 or r1["n8"] != 32: bad.append(("header", "field size"))
+    # element width: taken from each file's header (iden3: a multiple of 8 that holds the prime); both files must agree
+    for nm, d in (("witness.wtns", wt), ("circuit.r1cs", r1)):
+        if d["n8"] == 0 or d["n8"] % 8 != 0 or p >= 1 << (8 * d["n8"]):
+            bad.append(("header", f"{nm}: field size {d['n8']} is not a multiple of 8 holding the prime"))
+    if wt["n8"] != r1["n8"]: bad.append(("header", f"field size {wt['n8']} in witness.wtns, {r1['n8']} in circuit.r1cs"))
     if len(wt["values"]) != n: bad.append(("counts", f"witness has {len(wt['values'])} values, trace has {n}"))
     if r1["nwires"] != n: bad.append(("counts", f"nWires {r1['nwires']} != {n}"))
     if r1["npubout"] + r1["npubin"] != len(pubs): bad.append(("counts", "number of public wires"))
